@@ -35,6 +35,25 @@ def check(run):
         run.count("ops:%d-%d" % (len(s[2]) // 5 * 5, len(s[2]) // 5 * 5 + 4))
         run.count("compression:" + r["comp"])
         E.record_failures(run, s, E.judge_files(s, r), seen)
+    # the reading loops an application may write: one block object re-used for every block of the file, either by reading into it
+    # again (CdnsBlockRead::read on a used object) or by assigning each returned block to it - same records as with fresh objects
+    lines, want = [], []
+    for s, r in zip(sessions, res):
+        if r["results"] is None:
+            continue
+        for oi, (data, err) in enumerate(r["plain"]):
+            d = r["rd"].get(oi, "")
+            if data and d.endswith(" EOF") and d.count(" B{") >= 2 and len(lines) < (600 if quick else 20000):
+                for kind in ("R", "A"):
+                    lines.append("rd %s %s" % (kind, data.hex())); want.append((d, s))
+    for l, (d, s), a in zip(lines, want, G.run_rd(lines)):
+        run.case(("reuse", l[:200]), True, key=l); run.count("files read through one re-used block object")
+        if a != d:
+            sig = "exp:reused-block-object:" + l.split()[1]
+            if sig not in seen:
+                seen.add(sig)
+                run.spec_fail.append((sig, l[:8000], {"how": "R = CdnsBlockRead::read into the same object, A = block = reader.read_block(eof)",
+                                                     "with fresh objects": d[:1500], "with one re-used object": (a or "")[:1500]}))
 
 
 def replay(run, data):
